@@ -103,6 +103,7 @@ def run_check(pid, tier, seed):
     t0 = time.time()
     mod = importlib.import_module(f"harness.props.{pid.lower()}")
     out_lines = []
+    first_disagreements = []
     say = lambda s: (out_lines.append(s), print(s, flush=True))
     broken = []          # descriptions of proof obligations / correspondences that no longer check
     obligations = discharged = 0
@@ -170,6 +171,7 @@ def run_check(pid, tier, seed):
     if res.disagreements:
         broken.append({"kind": "correspondence", "count": len(res.disagreements),
                        "first": _clip(res.disagreements[0], 1500)})
+        first_disagreements = res.disagreements[:3]
 
     # 4. broken obligation / correspondence: search harder for an input on which the property fails
     if broken and not [f for f in res.failures if not f.get("finding")]:
@@ -180,6 +182,11 @@ def run_check(pid, tier, seed):
             res.merge(res2)
         except Exception:  # noqa: BLE001
             traceback.print_exc()
+
+    if res.disagreements and not first_disagreements:
+        first_disagreements = res.disagreements[:3]
+        if not any(b.get("kind") == "correspondence" for b in broken):
+            broken.append({"kind": "correspondence", "count": len(res.disagreements), "first": _clip(res.disagreements[0], 1500)})
 
     # 5. classify
     findings = load_findings(pid)
@@ -218,7 +225,7 @@ def run_check(pid, tier, seed):
         rc, violations = 1, len(new_fail)
     elif broken:
         replay = write_replay(pid, {"property": pid, "kind": "broken-obligation", "seed": seed, "tier": tier,
-                                     "broken": broken,
+                                     "broken": broken, "disagreements": first_disagreements,
                                      "note": "a proof obligation or the model/code correspondence no longer checks; "
                                              "the search found no input on which the property itself fails"})
         say(f"VIOLATION property={pid} replay={replay} no-failing-input-found")
